@@ -564,13 +564,13 @@ impl Scope {
             UseAs::Prefix(prefix) => {
                 for (name, function) in &*module.functions.lock().unwrap() {
                     let name = format!("{prefix}{name}").into();
-                    if expose.allow_var(&name) {
+                    if expose.allow_fun(&name) {
                         self.define_function(name, function.clone());
                     }
                 }
                 for (name, value) in &*module.variables.lock().unwrap() {
                     let name = format!("{prefix}{name}").into();
-                    if expose.allow_fun(&name) {
+                    if expose.allow_var(&name) {
                         self.define(name, value.clone())?;
                     }
                 }
